@@ -123,10 +123,13 @@ func (ch *Channel) run() {
 		<-writerDone
 
 	case <-ch.ctx.Done():
+		// close the transport first: a write blocked inside it
+		// returns only once the transport is closed.
+		ch.rwc.Close()
+
 		close(writerTerminate)
 		<-writerDone
 
-		ch.rwc.Close()
 		<-readerDone
 	}
 
